@@ -427,6 +427,22 @@ struct runner
         fail("map", "root " + std::to_string(i));
         return;
       }
+      // a function with state (a running number): the plain recursive model - a node, then its children from left to right -
+      // numbers the nodes in pre-order, and so must the result
+      {
+        long counter = 0;
+        TL const numbered = fcppt::container::tree::map<TL>(t, [&counter](int) { return counter++; });
+        long expect = 0;
+        bool in_order = true;
+        for (auto const &n : fcppt::container::tree::make_pre_order(numbered))
+          in_order = in_order && n.value() == expect++;
+        if (!in_order || expect != counter)
+        {
+          fail("map/stateful-function-order", "root " + std::to_string(i) + ": a numbering function does not number the nodes in pre-order; tree=" + ser(model[i]));
+          return;
+        }
+        VF_COUNT("map/stateful-function");
+      }
       // the result of map is inspected IN PLACE (a later move or copy would re-link its children)
       if (!links_ok(mapped))
       {
